@@ -99,18 +99,20 @@ pub fn gen_cache(ctx: &Ctx) {
 // ---------------------------------------------------------------------------------------------
 // stream `dateresp` (C18): the Date field of a message is the clock reading at the moment the head is emitted,
 // also when the body source makes the clock advance before anything is written.
-// case: `<R|Q|B|E> <t0> <adv> <len> <cl|chunked|auto>`: entry point (write_response from a reader / write_request / bytes / empty),
+// case: `<R|Q|B|E> <t0> <adv> <len> <cl|chunked|auto> [<after>]` (the clock advances at the first read after <after> bytes were delivered): entry point (write_response from a reader / write_request / bytes / empty),
 //       clock t0 at the call, the reader's first read advances it by adv seconds
 // impl: `<hex of the date line in the emitted head> <clock reading at the writer's first write>`
 thread_local! { static NOW: std::cell::Cell<i64> = const { std::cell::Cell::new(0) }; }
 fn set_now(t: i64) { NOW.with(|c| c.set(t)); khttp::verif::set_test_clock(Some(t)); }
-struct TickReader { left: usize, adv: i64, ticked: bool }
+struct TickReader { left: usize, adv: i64, ticked: bool, after: usize, given: usize }
 impl std::io::Read for TickReader {
     fn read(&mut self, buf: &mut [u8]) -> std::io::Result<usize> {
-        if !self.ticked { self.ticked = true; let t = NOW.with(|c| c.get()); set_now(t + self.adv); }
+        // the source stalls (the clock advances) at the first read once `after` bytes have been delivered
+        if !self.ticked && self.given >= self.after { self.ticked = true; let t = NOW.with(|c| c.get()); set_now(t + self.adv); }
         let n = self.left.min(buf.len()).min(1000);
         for b in buf[..n].iter_mut() { *b = b'x'; }
         self.left -= n;
+        self.given += n;
         Ok(n)
     }
 }
@@ -128,6 +130,7 @@ pub fn run_resp(case: &str) -> String {
     let h = std::thread::spawn(move || {
         use khttp::{Headers, HttpPrinter, Method, Status};
         let (t0, adv, len): (i64, i64, usize) = (f[1].parse().unwrap(), f[2].parse().unwrap(), f[3].parse().unwrap());
+        let after: usize = f.get(5).map(|x| x.parse().unwrap()).unwrap_or(0);
         // warm the thread's date cache one second earlier, as a serving thread would have
         set_now((t0 - 1).max(0));
         let _ = khttp::date::get_date_now();
@@ -137,8 +140,8 @@ pub fn run_resp(case: &str) -> String {
         let mut w = StampWriter { out: Vec::new(), first: None };
         let body = vec![b'x'; len];
         let _ = match f[0].as_str() {
-            "R" => HttpPrinter::write_response(&mut w, &Status::OK, &hs, TickReader { left: len, adv, ticked: false }),
-            "Q" => HttpPrinter::write_request(&mut w, &Method::Post, "/u", &hs, TickReader { left: len, adv, ticked: false }),
+            "R" => HttpPrinter::write_response(&mut w, &Status::OK, &hs, TickReader { left: len, adv, ticked: false, after, given: 0 }),
+            "Q" => HttpPrinter::write_request(&mut w, &Method::Post, "/u", &hs, TickReader { left: len, adv, ticked: false, after, given: 0 }),
             "B" => HttpPrinter::write_response_bytes(&mut w, &Status::OK, &hs, &body),
             _ => HttpPrinter::write_response_empty(&mut w, &Status::OK, &hs),
         };
@@ -168,8 +171,10 @@ pub fn gen_resp(ctx: &Ctx) {
         let ep = *rng.pick(&["R", "R", "Q", "B", "E"]);
         let t0 = match rng.below(3) { 0 => rng.below(253_402_300_000) as i64, 1 => rng.below(2_932_896) as i64 * 86400 + 86400 - rng.range(1, 3) as i64, _ => 1_700_000_000 + rng.below(100_000_000) as i64 };
         let adv = *rng.pick(&[0i64, 1, 1, 2, 5]);
-        let len = if ep == "E" { 0 } else { *rng.pick(&[0usize, 10, 5000, 20000]) };
-        let case = format!("{ep} {t0} {adv} {len} {}", rng.pick(&["cl", "chunked", "auto"]));
+        let len = if ep == "E" { 0 } else { *rng.pick(&[0usize, 10, 5000, 20000, 20000, 40000]) };
+        // the stall comes at the first read, or after 9000 / 12000 bytes were delivered promptly
+        let after = if len >= 20000 { *rng.pick(&[0usize, 0, 9000, 12000]) } else { 0 };
+        let case = format!("{ep} {t0} {adv} {len} {} {after}", rng.pick(&["cl", "chunked", "auto"]));
         let r = run_resp(&case);
         out.emit(&case, &r, &format!("{ep}/adv{}", adv.min(2)), adv > 0 && (ep == "R" || ep == "Q") && len > 0);
     }
